@@ -5,7 +5,9 @@ PROPS["C03"] = dict(
          "expiry none/+1h/+100h (the clock does not move here), CAS version current/previous/empty/garbage, GetMany/PutMany lists of 0..4 "
          "keys with repeats, 14 glob patterns from the subset gobwas/glob and Redis MATCH agree on; exhaustive part: all lists to the depth in "
          "exhaustive_parts over a 29-op alphabet on 2 keys. A third unit runs the in-memory backend alone against the model with records written already expired (Redis clamps TTLs to >= 1 ms and "
-         "cannot take part). Excluded on purpose: keys with a leading '/', glob syntax only one side knows. "
+         "cannot take part). A bulk unit writes N records with PutMany (N at and around 64, 128, 256, 500, 512, 1000, 1024, 2000, 2048, 3000, 4096; chunked or in one call; "
+         "with and without expiries), reads all of them plus absent keys back with ONE GetMany in a permuted order, lists them, deletes a part and reads "
+         "again, on both backends. Excluded on purpose: keys with a leading '/', glob syntax only one side knows. "
          "non-trivial = some op met an existing key with an outcome class different from the empty store (ErrExist, conflict, overwrite, "
          "delete-existing, ListKeys with a match); distinct = hash of the op list",
     assumptions=["reference model written from the comments of kvs.Storage and the C03 statement; nil and empty values are identified; "
@@ -14,6 +16,7 @@ PROPS["C03"] = dict(
     units=[
         dict(name="exhaustive", run="^TestC03Exhaustive$", shards=(1, 16), timeout=(300, 1500)),
         dict(name="inmemexpired", run="^TestC03InmemExpired$", checks=(3000, 20000), shards=(1, 8), timeout=(300, 1500)),
+        dict(name="bulk", run="^TestC03Bulk$", checks=(12, 120), shards=(2, 8), timeout=(300, 1500)),
         dict(name="rapid", run="^TestC03Rapid$", checks=(2500, 15000), shards=(4, 16), timeout=(300, 1500)),
     ],
 )
